@@ -786,6 +786,7 @@ class Check(common.Check):
         h['constructors_not_direct_skipped'] = t['not_direct']
         h['direct_delegators_exercised'] = len(classes)
         h['perform_methods_in_source'] = sum(1 for m in t['perform'] if m['kind'] == 'perform')
+        h['direct_delegator_classes'] = ' '.join(sorted(f'{m}.{c}.{k}' for m, c, k in classes))
         return h
 
     def shrink(self, case, fails):
